@@ -30,17 +30,21 @@ import (
 	"github.com/dolthub/dolt/go/zzverif/vt"
 )
 
-const c12MapRule = "a target content (0..24000 entries; row-shaped maps with 1-2 key fields and 1-3 nullable value fields, secondary-index-shaped maps with 2-3 key fields, nullable suffix fields and empty values, or maps with a few 2-60 KB values) (one target in six cut right after a leaf boundary) is built in bulk, must have a canonical root (leaf, or internal with >= 2 children), and is reached again by 2-3 drawn histories: bulk build of a different content (empty, subset, superset, mixed edits incl. edits at leaf boundaries, or an unrelated map of another height) followed by the net edits toward the target through MutableMap (maxPending in {1,2,7,64,default}, sorted or strided order, drawn flush batch) or MutateMapWithTupleIter (one or several sorted streams); the same start tree reached by mutating the target tree; and prolly.MergeMaps of two sides that split the changes between a base and the target (disjoint or identical on both sides). All must have the bulk tree's root hash, height and count; the bulk tree's content is read back and compared with the target. Non-trivial: target height>=2 and at least one history whose start tree has a different set of leaf-boundary keys than the target (a chunk boundary was created, removed or moved) or a different height; distinct by hash of (schema, size, target ops, history descriptions)."
+const c12MapRule = "a target content (0..24000 entries; row-shaped maps with 1-2 key fields and 1-3 nullable value fields, secondary-index-shaped maps with 2-3 key fields, nullable suffix fields and empty values, maps with a few 2-60 KB values, or (one in six) wide-row maps of 300-900 rows padded to 120-850 bytes so that a leaf holds 6-15 rows, whose first history is always the merge route with 10-60 boundary-biased edits) (one target in six cut right after a leaf boundary) is built in bulk, must have a canonical root (leaf, or internal with >= 2 children), and is reached again by 2-3 drawn histories: bulk build of a different content (empty, subset, superset, mixed edits incl. edits at leaf boundaries, or an unrelated map of another height) followed by the net edits toward the target through MutableMap (maxPending in {1,2,7,64,default}, sorted or strided order, drawn flush batch) or MutateMapWithTupleIter (one or several sorted streams); the same start tree reached by mutating the target tree; and prolly.MergeMaps of two sides that split the changes between a base and the target (disjoint or identical on both sides). All must have the bulk tree's root hash, height and count; the bulk tree's content is read back and compared with the target. Non-trivial: target height>=2 and at least one history whose start tree has a different set of leaf-boundary keys than the target (a chunk boundary was created, removed or moved) or a different height; distinct by hash of (schema, size, target ops, history descriptions)."
 
 const (
 	c12FlavorRows  = "rows"
 	c12FlavorIndex = "index"
 	c12FlavorBig   = "bigval"
+	c12FlavorWide  = "wide"
 )
 
 func c12GenSchemas(t *rapid.T) (string, vt.Schema, vt.Schema) {
-	f := rapid.IntRange(0, 9).Draw(t, "flavor")
+	f := rapid.IntRange(0, 11).Draw(t, "flavor")
 	switch {
+	case f >= 10:
+		// wide rows: 6-15 rows per leaf, so edits keep landing on chunk ends
+		return c12FlavorWide, vt.GenSchema(t, "key", 1, 2, false), c12WideSchema()
 	case f < 6:
 		return c12FlavorRows, vt.GenSchema(t, "key", 1, 2, false), vt.GenSchema(t, "val", 1, 3, true)
 	case f < 9:
@@ -153,7 +157,12 @@ func (s *c12MapCaseState) startContent(t *rapid.T, label string) (*vt.Dict, []c1
 	default:
 		name = "mixed"
 		n := rapid.IntRange(1, 20).Draw(t, label+".nops")
-		script = g.script(t, label+".s", S, bounds, n, [8]int{3, 2, 2, 2, 1, 2, 2, 5})
+		wt := [8]int{3, 2, 2, 2, 1, 2, 2, 5}
+		if w.wide {
+			n = rapid.IntRange(10, 60).Draw(t, label+".wideNops")
+			wt = [8]int{2, 2, 2, 3, 1, 1, 1, 9}
+		}
+		script = g.script(t, label+".s", S, bounds, n, wt)
 	}
 	return S, script, name + "{" + c12Join(g.ops, 12) + "}"
 }
@@ -331,6 +340,11 @@ func (s *c12MapCaseState) mergeHistory(t *rapid.T, label string) {
 func c12MapCase(t *rapid.T, rec *vh.Recorder) {
 	flavor, ks, vs := c12GenSchemas(t)
 	w := c12NewWorld(ks, vs)
+	if flavor == c12FlavorWide {
+		w.wide = true
+		w.padLo = rapid.SampledFrom([]int{120, 300, 450}).Draw(t, "padLo")
+		w.padSpan = rapid.SampledFrom([]int{1, 60, 401}).Draw(t, "padSpan")
+	}
 	s := &c12MapCaseState{w: w, flavor: flavor, classes: map[string]bool{}}
 	sizeClass := rapid.IntRange(0, 19).Draw(t, "sizeClass")
 	var n int
@@ -347,13 +361,18 @@ func c12MapCase(t *rapid.T, rec *vh.Recorder) {
 	if flavor == c12FlavorBig && n > 1500 {
 		n = 300 + n%1200
 	}
+	maxRun := 600
+	if w.wide {
+		n = 300 + n%600
+		maxRun = rapid.SampledFrom([]int{6, 12, 40, 120}).Draw(t, "maxRun")
+	}
 	step := 3
 	if mx := vt.MaxAt(ks.Kinds[0])/step - 20; n > mx {
 		n = mx
 	}
 	s.T = w.seqDict(n, step)
 	fullHi := n*step + 30
-	s.gen = &c12EditGen{w: w, fullHi: fullHi, hot: c12Hot(t, "hot", fullHi, 3), maxRun: 600}
+	s.gen = &c12EditGen{w: w, fullHi: fullHi, hot: c12Hot(t, "hot", fullHi, 3), maxRun: maxRun}
 	// make the target irregular
 	nT := rapid.IntRange(0, 6).Draw(t, "targetOps")
 	s.gen.script(t, "T", s.T, nil, nT, [8]int{2, 2, 1, 2, 0, 2, 2, 0})
@@ -419,7 +438,8 @@ func c12MapCase(t *rapid.T, rec *vh.Recorder) {
 	nh := rapid.IntRange(2, 3).Draw(t, "histories")
 	for i := 0; i < nh; i++ {
 		label := fmt.Sprintf("h%d", i)
-		if rapid.IntRange(0, 2).Draw(t, label+".kind") == 0 {
+		// wide rows: the first history is always the merge route
+		if (w.wide && i == 0) || rapid.IntRange(0, 2).Draw(t, label+".kind") == 0 {
 			s.mergeHistory(t, label)
 		} else {
 			s.editHistory(t, label)
